@@ -1379,6 +1379,13 @@ pub fn run(args: &Args) {
         let user_csvs: Vec<String> = (1..lx.ndics).map(|k| lx.csv(k)).collect();
         let dict: Dict = match catch(|| build_dict(&sys_csv, &user_csvs, &cfg)) {
             Ok(Ok(d)) => Rc::new(d),
+            Ok(Err(e)) if e.contains("was not in the dictionary, user-defined POS are forbidden") && !sys_csv.contains(POS) => {
+                // the generated SYSTEM lexicon happens to hold no word with the part of speech the configured OOV provider
+                // names (plugins are set up against the system dictionary, before user dictionaries are merged): the loader
+                // refuses such a configuration by its documented rule, so it is no input of this property; counted in the evidence
+                sink.tag("generated_configuration_refused:oov_pos_not_in_system_dictionary");
+                continue;
+            }
             Ok(Err(e)) => {
                 rejected += 1;
                 let id = sink.case_rust_only(json!({"kind": "c09-build", "system_csv": sys_csv, "user_csvs": user_csvs, "error": e}), false);
